@@ -10,6 +10,8 @@ package main
 
 import (
 	"fmt"
+	"go/token"
+	"os"
 	"sort"
 	"strings"
 
@@ -99,7 +101,9 @@ func findKeyLoops(c *Ctx) []keyLoop {
 	return out
 }
 
-func isByteSlice(t interface{ String() string }) bool { return t.String() == "[]byte" || t.String() == "[]uint8" }
+func isByteSlice(t interface{ String() string }) bool {
+	return t.String() == "[]byte" || t.String() == "[]uint8"
+}
 func isStringSlice(t interface{ String() string }) bool {
 	return t.String() == "[]string"
 }
@@ -458,4 +462,144 @@ func ruleC06R5(c *Ctx) {
 		c.check(fromFile, "C06.R5", ls, "recovered id is the content of .id", in.Pos(), "the bytes read from the id file", "the recovered id is not what was stored (e.g. the directory name, which is sanitised and hashed)")
 	})
 	c.floor("C06.R5", "ids appended to the recovery list", nApp, 1)
+}
+
+// R6: the permanent key values of a pipeline are never rewritten. The lookup key of the pipeline map is built from the raw
+// values (R1); tag, queue id and label values are built from the slice handed on by GetOrCreate (R3). If any function on
+// the way stores into an element of that slice (cleaning, trimming, lower-casing the values "for the id"), identity and
+// routing no longer follow the same values: two tuples routed apart can share one tag / queue directory.
+// The slice is followed from DeepCopyStrings(tempKeys) in GetOrCreate through every call that receives it.
+func init() {
+	register("C06", "C06.R6", ruleC06R6)
+}
+
+func ruleC06R6(c *Ctx) {
+	type item struct {
+		fn *ssa.Function
+		v  ssa.Value
+	}
+	var work []item
+	for _, fn := range c.P.Fns(aGetOrCreate) {
+		for _, s := range callsIn(fn) {
+			if f := s.Common().StaticCallee(); f != nil && isAnchor(f, "util.DeepCopyStrings") && s.Value() != nil {
+				work = append(work, item{fn, s.Value()})
+			}
+		}
+	}
+	c.floor("C06.R6", "permanent key slices created in GetOrCreate", len(work), 1)
+	seen := map[ssa.Value]bool{}
+	nFns, nUses := 0, 0
+	visited := map[*ssa.Function]bool{}
+	for len(work) > 0 {
+		it := work[len(work)-1]
+		work = work[:len(work)-1]
+		if seen[it.v] {
+			continue
+		}
+		seen[it.v] = true
+		if !visited[it.fn] {
+			visited[it.fn] = true
+			nFns++
+			if os.Getenv("SLOGCHECK_VERBOSE") != "" {
+				fmt.Printf("C06.R6 visits %s (%s)\n", it.fn.String(), it.v.Name())
+			}
+		}
+		// aliases of the slice inside the function: re-slices, phis, local copies, closure captures
+		alias := map[ssa.Value]bool{it.v: true}
+		for changed := true; changed; {
+			changed = false
+			for _, f := range withAnons(it.fn) {
+				eachInstr(f, func(in ssa.Instruction) {
+					v, ok := in.(ssa.Value)
+					if !ok || alias[v] {
+						return
+					}
+					switch x := in.(type) {
+					case *ssa.Slice:
+						if alias[x.X] {
+							alias[v], changed = true, true
+						}
+					case *ssa.Phi:
+						for _, e := range x.Edges {
+							if alias[e] {
+								alias[v], changed = true, true
+							}
+						}
+					case *ssa.ChangeType:
+						if alias[x.X] {
+							alias[v], changed = true, true
+						}
+					case *ssa.UnOp:
+						// load of a local cell or captured variable holding the slice
+						if x.Op == token.MUL {
+							switch a := x.X.(type) {
+							case *ssa.Alloc:
+								for _, ref := range *a.Referrers() {
+									if st, ok := ref.(*ssa.Store); ok && st.Addr == ssa.Value(a) && alias[st.Val] {
+										alias[v], changed = true, true
+									}
+								}
+							case *ssa.FreeVar:
+								if b := freeVarBinding(a); b != nil {
+									if al, ok := b.(*ssa.Alloc); ok {
+										for _, ref := range *al.Referrers() {
+											if st, ok := ref.(*ssa.Store); ok && st.Addr == ssa.Value(al) && alias[st.Val] {
+												alias[v], changed = true, true
+											}
+										}
+									}
+								}
+							}
+						}
+					}
+				})
+				for _, fv := range f.FreeVars {
+					if b := freeVarBinding(fv); b != nil && alias[b] && !alias[fv] {
+						alias[fv], changed = true, true
+					}
+				}
+			}
+		}
+		for _, f := range withAnons(it.fn) {
+			eachInstr(f, func(in ssa.Instruction) {
+				switch x := in.(type) {
+				case *ssa.Store:
+					if ia, ok := x.Addr.(*ssa.IndexAddr); ok && alias[ia.X] {
+						nUses++
+						c.bad("C06.R6", f, "the permanent key values are not rewritten", x.Pos(),
+							"an element of the pipeline's permanent key slice is overwritten: tag, queue id and labels are then built from other values than the ones the record was routed by (two key tuples routed apart can share one tag / queue directory)")
+					}
+				case ssa.CallInstruction:
+					cc := x.Common()
+					if bi, ok := cc.Value.(*ssa.Builtin); ok {
+						if (bi.Name() == "copy" || bi.Name() == "clear") && len(cc.Args) > 0 && alias[cc.Args[0]] {
+							nUses++
+							c.bad("C06.R6", f, "the permanent key values are not rewritten", x.Pos(), "the pipeline's permanent key slice is the destination of "+bi.Name())
+						}
+						return
+					}
+					args := cc.Args
+					for i, a := range args {
+						if !alias[a] {
+							continue
+						}
+						nUses++
+						for _, cal := range c.P.callees(x) {
+							if cal.Blocks == nil || !(c.P.inUni[cal] || (cal.Synthetic != "" && strings.HasPrefix(fnPkgPath(cal), modPath))) {
+								// outside the module: the standard library functions used here (strings.Join, append) do not write their argument
+								continue
+							}
+							// invokes and calls of bound-method values do not list the receiver among their arguments
+							pi := i + len(cal.Params) - len(cc.Args)
+							if pi >= 0 && pi < len(cal.Params) {
+								work = append(work, item{cal, cal.Params[pi]})
+							}
+						}
+					}
+				}
+			})
+		}
+	}
+	c.floor("C06.R6", "functions the permanent key slice flows through", nFns, 4)
+	c.ok("C06.R6", nil, "the permanent key values are not rewritten", 0, fmt.Sprintf("followed through %d functions, %d uses, no element store", nFns, nUses))
 }
